@@ -144,6 +144,7 @@ TOp ==
                   ELSE UNION {{[a EXCEPT !.scr = S2] : S2 \in UNION {OpSet(a.scr, E.op, E.a, ch) : ch \in chs}} : a \in poss}
          raisedOK == CASE rej = "bytes"  -> o.raised = "TypeError"
                        [] rej = "decode" -> o.raised \in {"", "UnicodeDecodeError"}
+                       [] rej = "empty"  -> o.raised = "IndexError"
                        [] OTHER          -> o.raised = ""
          hit == IF ObsShapeOK(o) THEN {a \in nexts : a.scr = ObsScr(o)} ELSE {}
          w == CHOOSE a \in nexts : TRUE
